@@ -252,12 +252,10 @@ def oracle_html_events(case, events, ex, label):
     return None
 
 
-def chunk_plan(text, extra=None):
+def chunk_plan(text):
     sizes = [1, 7]
     if len(text) > 3000:
         sizes += [4095, 4096, 4097]
-    if extra:
-        sizes.append(extra)
     return sizes
 
 
@@ -1268,11 +1266,6 @@ def run_syn_html(script):
     return drain(SynHTML(script))
 
 
-def cut_script(script):
-    """the part of a script the layer can consume: nothing after the first failing read"""
-    return script
-
-
 def gen_syn_xml(rng):
     names = ['a', 'u}a', 'b', 'http://www.w3.org/1999/xhtml}p', 'u}v}w', '{a', '}', '']
 
@@ -1633,7 +1626,7 @@ def script_stats(res, stream, script):
             res.count('%s:cb:%s' % (stream, it[0]))
 
 
-def nontrivial_key(case, cevs_len=None):
+def nontrivial_key(case):
     txt = json.dumps(case, sort_keys=True, ensure_ascii=True)
     if len(txt) > 300:
         import hashlib
